@@ -27,7 +27,7 @@ const addrA, addrB = "127.0.0.1:1001", "127.0.0.1:1002"
 
 type params struct {
 	listen  string // ok | occupied
-	traffic string // none | out | in | both
+	traffic string // none | out | in | both | retrying (an actor's Tell to an unreachable peer is inside its reconnect back-off, 10 retries = 18 s, when the system is stopped with a 5 s timeout)
 	peer    string // up | stopped | gone
 	op      string // stop | cancel
 }
@@ -59,9 +59,13 @@ func scenario(p params, bounds []int) *vexp.Scenario {
 				}
 			}
 			ctx, cancel := context.WithCancel(context.Background())
+			limit, maxDelay := 2, time.Second
+			if p.traffic == "retrying" {
+				limit, maxDelay = 10, 3*time.Second
+			}
 			mk := func(bind string, opts ...vivid.ActorSystemOption) *vsys.World {
 				opts = append(opts, vivid.WithActorSystemRemoting(bind),
-					vivid.WithActorSystemRemotingOption(vivid.WithActorSystemRemotingReconnect(2, 100*time.Millisecond, time.Second, 2, false)),
+					vivid.WithActorSystemRemotingOption(vivid.WithActorSystemRemotingReconnect(limit, 100*time.Millisecond, maxDelay, 2, false)),
 					vivid.WithActorSystemStopTimeout(time.Minute))
 				w := vsys.NewWorld(x, opts...)
 				w.Quiet = true
@@ -80,6 +84,13 @@ func scenario(p params, bounds []int) *vexp.Scenario {
 			}
 			echo(wa, "A")
 			echo(wb, "B")
+			if p.traffic == "retrying" {
+				refB, _ := wa.Sys.CreateRef(addrB, "/echo")
+				wa.SpawnRoot(&vsys.Script{Name: "snd", OnMsg: func(a *vsys.Act, c vivid.ActorContext, m vsys.Msg) {
+					c.Tell(refB, &vcodec.CustomMsg{N: 7, T: "into the void"})
+				}})
+				nw.Refuse = func(to string, idx int) bool { return to == addrB }
+			}
 			settle := func(d time.Duration) {
 				vrt.SetHorizon(vrt.Now() + int64(d))
 				vrt.Quiesce()
@@ -101,6 +112,10 @@ func scenario(p params, bounds []int) *vexp.Scenario {
 			if (p.traffic == "in" || p.traffic == "both") && p.listen == "ok" && got["A"] != 1 {
 				x.Fail("harness", "the message from B did not reach A before the stop (got %v)", got)
 			}
+			if p.traffic == "retrying" {
+				wa.Sys.Tell(wa.Ref("/snd"), vsys.Msg{ID: "go"})
+				settle(500 * time.Millisecond) // the Tell is now somewhere inside its reconnect schedule
+			}
 			switch p.peer {
 			case "stopped":
 				if err := wb.Sys.Stop(); err != nil {
@@ -120,7 +135,12 @@ func scenario(p params, bounds []int) *vexp.Scenario {
 				stopRes, stopReturned, stopAt = "-", true, vrt.Now()
 			} else {
 				vrt.Go("stopper", func() {
-					err := wa.Sys.Stop()
+					var err error
+					if p.traffic == "retrying" {
+						err = wa.Sys.Stop(5 * time.Second) // longer than any single back-off interval, shorter than the whole schedule
+					} else {
+						err = wa.Sys.Stop()
+					}
 					switch {
 					case err == nil:
 						stopRes = "nil"
@@ -193,6 +213,11 @@ func build(tier string) []*vexp.Scenario {
 					out = append(out, scenario(params{listen, traffic, peer, op}, b))
 				}
 			}
+		}
+	}
+	for _, listen := range []string{"ok", "occupied"} {
+		for _, op := range []string{"stop", "cancel"} {
+			out = append(out, scenario(params{listen, "retrying", "up", op}, []int{0, 1}))
 		}
 	}
 	return out
